@@ -474,7 +474,9 @@ func runChild(spec Spec, shard, nshards int, tier string, seed int64, variant, r
 	}
 	// periodic flush so that a crash of the child keeps what was observed so far
 	stop := make(chan struct{})
+	stopped := make(chan struct{})
 	go func() {
+		defer close(stopped)
 		t := time.NewTicker(2 * time.Second)
 		defer t.Stop()
 		for {
@@ -488,6 +490,7 @@ func runChild(spec Spec, shard, nshards int, tier string, seed int64, variant, r
 	}()
 	spec.Run(c)
 	close(stop)
+	<-stopped // the periodic flusher must not overwrite the final result
 	flush(true)
 }
 
